@@ -116,14 +116,13 @@ CLAIMED = {
             'the AST on every run and Tie/ThreadProg.v re-proves its safety hypothesis; each real execution is replayed on the '
             'model (traces_validated_against_impl).',
             'Partial: bytecode-level switches inside a line, the GIL / free-threaded builds and C-level atomicity are not modelled.', 'DESIGN.md section 4 C20'),
-    'C01': ('Coq proof (partial): literals of the parsed expression = license tokens in order; every reported match spans word pieces '
-            'spelling a stored name; names stored under the words of their key / alias; every token is the slice of the text; the '
-            'tokens of the matcher are ordered, disjoint and cover every non-blank piece exactly once + word-accounting oracle and '
-            'token-triple correspondence on generated tables x texts (chains through shared words included)',
-            'Theorems over the boolean parser machine, the Aho-Corasick scan and Trie.tokenize. Not a theorem yet: the statement '
-            'about the words of the keys through unknown-run merging and WITH grouping (the matcher-level coverage is); that link is '
-            'decided by the accounting oracle on every generated case.',
-            'Partial proof, see Props/C01.v header.', 'DESIGN.md section 4 C01'),
+    'C01': ('Coq proof, full statement on the model for both tokenizers: when parse succeeds, the literals of the expression are the '
+            'license tokens in order, and the non-blank pieces of the text are the in-order concatenation of one group per token - an '
+            'operator for its keyword, a known license for the words of its key or alias (ignoring case), an unknown license for the '
+            'words of its key verbatim, a WITH pair for its three parts + word-accounting oracle and token-triple correspondence',
+            'Theorems parse_accounted / parse_accounted_simple (Proofs/Account.v) on top of scan_exact, the coverage theorem of the '
+            'piece walk, the unknown-run merger and greedy WITH grouping; bparse_literals for the second sentence.',
+            'Premise: U+0020 is white space for the oracle (checked on the interpreter tables).', 'DESIGN.md section 4 C01'),
     'C04': ('Coq proof: a text that spells one stored name (any case, any white space, also around parentheses) is tokenized to exactly '
             'one token over its whole span and parsed to the owning symbol, strict or not (recognise_alone, recognise_name); look-ups '
             'depend only on lower-cased words + every name of generated tables in case / white-space variants and 12 operator contexts',
